@@ -49,8 +49,8 @@ TRUSTED_BASE = [
     "harness/xdsl_compat.py; xDSL 0.70 parser, Block/Region/clone, SymbolTable lookup",
 ]
 ASSUMPTIONS = [
-    "history theorems: kernels with attribute-free operations (plain; its failure is the known class not_distinct_by_type), one data arity per history, and a merge that goes through (exceptions of append are loud); decode_sound/valid_mapping_sem/switch_count hold for any well-formed abstract graph",
-    "the decidable hypotheses of the theorems (pe_wf of every merged graph, concreteness/unique ids/pe_wf of every encoded graph, block_ordered) are evaluated by the model on every real graph of the run (L1 kinds wf, kok, ord)",
+    "history theorems (C20_history_correct_total, C20_bodies_history_correct): kernel graphs as encode produces them (kernel_total_ok, decidable) with one data arity per history; no assumption on attributes (since fix 29d845f) nor on the merge succeeding (C20_merge_succeeds); decode_sound/valid_mapping_sem/switch_count hold for any well-formed abstract graph",
+    "the decidable hypotheses of the theorems (pe_wf of every merged graph, kernel_total_ok of every encoded graph, block_ordered) are evaluated by the model on every real graph of the run (L1 kinds wf, kok, ord)",
     "the meaning of a scalar operation is an arbitrary function of (op name, attributes, operand values) (Section variable opsem); types are not modelled beyond their role in the choose-op ids",
     "a PE is evaluated demand-driven: only the choose ops on the selected paths are evaluated (hardware: all units compute, muxes select)",
     "the switch values of a call are consumed in switch order by the muxes and by the choose ops with more than one alternative (one-alternative switches are removed, as remove-one-option-switches does)",
@@ -700,26 +700,6 @@ def data_inputs(rng, types, quick=True):
 
 
 # ---------------------------------------------------------------- the property on the implementation
-def attr_conflict(pe, g):
-    """class not_distinct_by_type: some choose op of g finds, by op *type*, an alternative in pe that differs in
-    attributes/properties (decode cannot tell them apart)."""
-    from snaxc.dialects import phs
-    for c in g.body.ops:
-        if not isinstance(c, phs.ChooseOp):
-            continue
-        a = pe.get_choose_op(c.name_prop.data)
-        if a is None:
-            continue
-        t = list(c.operations())[0]
-        for o in a.operations():
-            if type(o) is type(t):
-                if o.properties != t.properties or o.attributes != t.attributes or \
-                        tuple(o.result_types) != tuple(t.result_types):
-                    return True
-                break
-    return False
-
-
 def block_ordered(pe):
     seen = set(id(a) for a in pe.body.block.args)
     for o in pe.body.block.ops:
@@ -810,13 +790,12 @@ def check_history(rng, texts, order, ninputs=None):
             genj = parse_generic(texts[order[j]])
             gj = real_encode(genj)
             sw, err = guarded(decode_abstract_graph, G, gj)
-            conflict = attr_conflict(G, gj)
             if is_timeout(err):
                 fails.append(dict(what="decode hangs", step=step, kernel=j, detail=err, klass=None))
                 return fails, info
             if err:
                 fails.append(dict(what="kernel no longer decodable", step=step, kernel=j, detail=err,
-                                  klass="not_distinct_by_type" if conflict else None))
+                                  klass=None))
                 continue
             info["decoded"] += 1
             if len(sw) != tsw:
@@ -839,7 +818,7 @@ def check_history(rng, texts, order, ninputs=None):
                     fails.append(dict(what="merged PE computes another function", step=step, kernel=j,
                                       detail=dict(switches=list(sw), inputs=ins, expected=repr(want),
                                                   got=repr(got) if not err else err, pe=str(G)[:2500]),
-                                      klass="not_distinct_by_type" if conflict and not is_timeout(err) else None))
+                                      klass=None))
                     break
     from snaxc.dialects import phs
     info["muxes"] = sum(isinstance(o, phs.MuxOp) for o in G.body.ops)
@@ -986,7 +965,7 @@ def correspondence(ctx):
         "dec": "fun c : pe * pe * option (list Z) => match c with (G, g, r) => opt_eqb (list_eqb Z.eqb) (decode G g) r end",
         "tsw": "fun c : pe * option nat => opt_eqb Nat.eqb (true_switches (fst c)) (snd c)",
         "wf": "pe_wf",
-        "kok": "fun g : pe => is_concrete g && nodup_ids (map nid (pnodes g)) && pe_wf g",
+        "kok": "kernel_total_ok",
         "ord": "fun c : pe * bool => Bool.eqb (block_ordered (fst c)) (snd c)",
     }
     # shards: few files (every coqc start costs seconds), each with one list per kind
